@@ -58,7 +58,7 @@ class Gen:
         if tword == "character":
             v = r.choice(['"abc"', "'x,y'", '"a(b"', "'it''s'", '"p" // "q"'])
             # an exclamation mark inside the literal does not start a comment
-            return self.r2.choice(['"wow!"', "'a!b, c'", '"!"']) if self.r2.random() < 0.3 else v
+            return self.r2.choice(['"wow!"', "'a!b, c'", '"!"', '"a::b"', "'::'"]) if self.r2.random() < 0.3 else v
         if tword == "logical":
             return r.choice([".true.", ".false.", ".not. .true."])
         if tword == "complex":
@@ -221,10 +221,21 @@ class Gen:
             e = [self.nm("e") for _ in range(r.randint(2, 3))]
             self.lines.append(f"    {self.kw('real')} :: {', '.join(e)}")
             ln = len(self.lines) - 1
-            self.lines.append(f"    {self.kw('external')} {e[0]}")
+            # documentation around the EXTERNAL statement belongs to the entity it completes
+            edoc = None
+            emode = self.r2.random()
+            if emode < 0.3:
+                edoc = f"doc text {self.nm('k')} before external"
+                self.lines.append(f"    !> {edoc}")
+                self.lines.append(f"    {self.kw('external')} {e[0]}")
+            elif emode < 0.5:
+                edoc = f"doc text {self.nm('k')} trailing external"
+                self.lines.append(f"    {self.kw('external')} {e[0]} !< {edoc}")
+            else:
+                self.lines.append(f"    {self.kw('external')} {e[0]}")
             for i, n in enumerate(e):
                 self.decls.append({"name": n, "type": "real", "selector": "", "attrs": {"external"} if i == 0 else set(),
-                                   "dim": None, "value": None, "doc": None, "line": ln})
+                                   "dim": None, "value": None, "doc": edoc if i == 0 else None, "line": ln})
         self.lines.append(f"  {self.kw('end')} {self.kw('function' if fun else 'subroutine')} {name}")
         self.decls += list(adecl.values())
         self.procs.append({"name": name, "line": line0, "args": args, "arg_decls": adecl, "fun": fun, "doc": pdoc,
